@@ -2,6 +2,7 @@ package props
 
 import (
 	"fmt"
+	"strings"
 
 	"verif/internal/explore"
 	"verif/internal/h"
@@ -361,12 +362,71 @@ func checkC11(c *h.Check) {
 			}
 		}
 	})
+	// the same binding text in two injector files of one package that import two different packages under the same
+	// name: each binding means the package its own file imports
+	for variant := 0; variant < 2; variant++ {
+		files := c11SameTextFiles(variant)
+		cs := &h.Case{ID: fmt.Sprintf("C11/same-binding-text-in-two-files/variant=%d", variant), Files: files, Drive: true,
+			Judge: func(r *h.Result) []h.Violation {
+				switch {
+				case r.Crashed:
+					return []h.Violation{{Symptom: "crash", Detail: clip(r.Raw, 1200)}}
+				case r.TimedOut:
+					return []h.Violation{{Symptom: "timeout", Detail: "wire did not terminate"}}
+				case r.LoadFailed:
+					return []h.Violation{{Symptom: "harness-illtyped", Detail: clip(r.AllDiags(), 800)}}
+				case r.Root().Failed:
+					return []h.Violation{{Symptom: "spurious-reject", Detail: "two well-formed bindings, each in its own file, rejected:\n" + clip(strings.Join(r.Root().Diags, "\n"), 1000)}}
+				case r.CompileErr != "":
+					return []h.Violation{{Symptom: "compile-error", Detail: clip(r.CompileErr, 1000)}}
+				case !r.Ran:
+					return []h.Violation{{Symptom: "harness-notrun", Detail: "accepted but not run"}}
+				}
+				for _, l := range r.Trace {
+					f := strings.Fields(l)
+					if len(f) == 3 && f[0] == "N" && f[1] == "kinds" && f[2] != "fast,slow,slow" {
+						return []h.Violation{{Symptom: "wrong-binding", Detail: "the interface is not fed by the concrete type its binding names (kinds seen: " + f[2] + ", want fast,slow,slow)\n" + clip(r.GenSrc[""], 1500)}}
+					}
+				}
+				return nil
+			}}
+		if c.NoteProgram(cs.Files) {
+			cases = append(cases, cs)
+		}
+	}
 	results := c.JudgeAll(cases)
-	stdCoverage(c, cases, results, "chains of two bindings (J -> I -> *L) in every order with every set of consumers; injectors that need no provider call and return an interface bound to one of up to three arguments that all implement it; full product: interface {plain, embedding another, from another package} x implementation {value receiver, pointer receiver, none, the interface itself, a wider interface} x bound type {T, *T} x how the concrete type is provided {function, struct provider, value, injector parameter, field, nested set inside the binding's set, enclosing call only, sibling set only} x consumers of I {1,2} x consumers of C {0,1,2} x {binding, no binding} x nesting depth of the binding's set below wire.Build {0..3} x visiting order {interface first, concrete type first, one consumer of both}; a second binding in the same set {none, valid, concrete type unprovided listed after / before the first}; wire imported plainly, under an alias or with a dot import; implementation kinds include a type that declares the interface's own methods but not those of an embedded interface. Oracle: rejected exactly when the method-set rule fails, C is I, or C is not provided in the binding's own set; accepted programs are compiled and run and every consumer of I and C must receive the same instance (pointer identity unified), C's source running once; without a binding the interface is missing. Distinct = distinct rendered source.")
+	stdCoverage(c, cases, results, "chains of two bindings (J -> I -> *L) in every order with every set of consumers; injectors that need no provider call and return an interface bound to one of up to three arguments that all implement it; full product: interface {plain, embedding another, from another package} x implementation {value receiver, pointer receiver, none, the interface itself, a wider interface} x bound type {T, *T} x how the concrete type is provided {function, struct provider, value, injector parameter, field, nested set inside the binding's set, enclosing call only, sibling set only} x consumers of I {1,2} x consumers of C {0,1,2} x {binding, no binding} x nesting depth of the binding's set below wire.Build {0..3} x visiting order {interface first, concrete type first, one consumer of both}; a second binding in the same set {none, valid, concrete type unprovided listed after / before the first}; wire imported plainly, under an alias or with a dot import; implementation kinds include a type that declares the interface's own methods but not those of an embedded interface. Oracle: rejected exactly when the method-set rule fails, C is I, or C is not provided in the binding's own set; accepted programs are compiled and run and every consumer of I and C must receive the same instance (pointer identity unified), C's source running once; without a binding the interface is missing. The same binding text in two injector files of one package whose identically named imports denote different packages: each binding feeds its own file's type. Distinct = distinct rendered source.")
 	c.Coverage["model_verdict_classes"] = kinds.summary()
 	c.Coverage["explorer"] = map[string]interface{}{"executions": st.Executions, "mode": "full product"}
 	sampleCase(c, cases, results)
 	if kinds["model:accept"] < 50 || kinds["model:bad-bind"] < 20 || kinds["model:bind-unprovided"] < 10 || kinds["model:missing"] < 10 {
 		c.Internalf("vacuous: %v", kinds)
 	}
+}
+
+// c11SameTextFiles: packages fast and slow both declare Store (with Kind); the root package has two injector files
+// that import one of them each under the name impl and contain the very same text wire.Bind(new(Kinder), new(*impl.Store)).
+// variant 1: the second injector also receives a *fast.Store argument, so that a binding resolved to the wrong package
+// would still be satisfiable.
+func c11SameTextFiles(variant int) map[string]string {
+	files := map[string]string{}
+	for _, n := range []string{"fast", "slow"} {
+		files[n+"/store.go"] = fmt.Sprintf("package %s\n\ntype Store struct{ N int }\n\nfunc (s *Store) Kind() string { return %q }\n\nfunc New() *Store { return &Store{N: 1} }\n", n, n)
+	}
+	files["defs.go"] = "package p\n\nimport (\n\t\"{{ROOT}}/fast\"\n\t\"{{ROOT}}/slow\"\n)\n\ntype Kinder interface{ Kind() string }\n\ntype Migrator struct {\n\tSrc *fast.Store\n\tK   Kinder\n\tDst *slow.Store\n}\n\nfunc NewMigrator(src *fast.Store, k Kinder, dst *slow.Store) Migrator { return Migrator{src, k, dst} }\n\ntype Pair struct {\n\tK   Kinder\n\tDst *slow.Store\n}\n\nfunc NewPair(k Kinder, dst *slow.Store) Pair { return Pair{k, dst} }\n"
+	hdr := "//go:build wireinject\n// +build wireinject\n\npackage p\n\nimport (\n\t\"github.com/google/wire\"\n"
+	files["a_inject.go"] = hdr + "\timpl \"{{ROOT}}/fast\"\n)\n\nfunc InitA() Kinder {\n\tpanic(wire.Build(impl.New, wire.Bind(new(Kinder), new(*impl.Store))))\n}\n"
+	if variant == 1 {
+		files["b_inject.go"] = hdr + "\t\"{{ROOT}}/fast\"\n\timpl \"{{ROOT}}/slow\"\n)\n\nfunc InitB(src *fast.Store) Migrator {\n\tpanic(wire.Build(impl.New, wire.Bind(new(Kinder), new(*impl.Store)), NewMigrator))\n}\n"
+	} else {
+		files["b_inject.go"] = hdr + "\timpl \"{{ROOT}}/slow\"\n)\n\nfunc InitB() Pair {\n\tpanic(wire.Build(impl.New, wire.Bind(new(Kinder), new(*impl.Store)), NewPair))\n}\n"
+	}
+	call := "InitB()"
+	imp := ""
+	if variant == 1 {
+		call = "InitB(fast.New())"
+		imp = "\t\"{{ROOT}}/fast\"\n"
+	}
+	files["driver.go"] = "package p\n\nimport (\n\t\"example.com/m/vt\"\n" + imp + ")\n\nfunc VerifDrive() {\n\tvt.Case(\"{{CASE}}\")\n\tb := " + call + "\n\tsame := \"other\"\n\tif s, ok := b.K.(interface{ Kind() string }); ok && b.K == Kinder(b.Dst) {\n\t\tsame = s.Kind()\n\t}\n\tvt.Note(\"kinds \" + InitA().Kind() + \",\" + b.K.Kind() + \",\" + same)\n}\n"
+	return files
 }
